@@ -887,10 +887,19 @@ where
             // The entry has been already admitted, so treat this as an update.
             // Replace the weight that is currently counted for this entry. (It can be
             // different from the `old_weight` of this op when ops for the same key
-            // were reordered or when the entry was removed in between.)
-            counters.saturating_sub(0, entry.policy_weight());
-            counters.saturating_add(0, new_weight);
-            entry.entry_info().set_policy_weight(new_weight);
+            // were reordered or when the entry was removed in between.) Do so only
+            // when this op carries the value that the cache holds now: when two
+            // threads wrote the key and their ops were queued in the opposite order,
+            // the op of the older value must not overwrite the weight of the newer.
+            let is_current = self
+                .cache
+                .get(&kh.key)
+                .map_or(false, |r| TrioArc::ptr_eq(r.value(), &entry));
+            if is_current {
+                counters.saturating_sub(0, entry.policy_weight());
+                counters.saturating_add(0, new_weight);
+                entry.entry_info().set_policy_weight(new_weight);
+            }
             deqs.move_to_back_ao(&entry);
             deqs.move_to_back_wo(&entry);
             return;
